@@ -2,7 +2,7 @@
    specification (mode 2) satisfies the declarative one, eviction is harmless, refutations for the code at HEAD. *)
 From Coq Require Import ZArith List Bool Lia Permutation Sorted.
 Import ListNotations.
-From SCMO Require Import Model.C16 Proofs.C16_a Proofs.C16_b.
+From SCMO Require Import Gen.GenFeatures Model.C16 Proofs.C16_a Proofs.C16_b.
 Open Scope Z_scope.
 
 (* ------------------------------------------------------------------ lookups on the index sort() builds *)
@@ -39,6 +39,18 @@ Lemma range_exact fs a b q : starts_le_ends fs -> a <= b ->
 Proof.
   intros H Hab r l. pose proof (build_wb fs H) as Hwb. split; [apply dedup_NoDup|].
   intros f. unfold l, r. rewrite (between_exact _ a b q f Hwb Hab). rewrite build_feats, sort_In. tauto.
+Qed.
+
+(* ------------------------------------------------------------------ T: what the regenerated kernel is *)
+Lemma source_kernel :
+  (forall r x q o, at_rec r x q o = at_rec_ref r x q o) /\
+  (forall r a b q, between_rec r a b q = between_rec_ref r a b q) /\
+  (forall fs, pre_rec fs = pre_rec_ref fs) /\ (forall l v, ss g_fastidx_side l v = ss_left l v) /\
+  (forall bs be, g_block_start bs be = bs /\ g_block_end bs be = be - 1) /\
+  g_autosort_at = true /\ cfg_fixed = cfg_ref.
+Proof.
+  repeat split; intros;
+    auto using at_rec_shape, between_rec_shape, pre_rec_shape, ss_fastidx_shape, block_start_shape, block_end_shape.
 Qed.
 
 (* ------------------------------------------------------------------ the executable specification *)
@@ -97,7 +109,7 @@ Theorem eviction_harmless ops2 : forall st all m',
   Inv st all -> all_wf all -> incl m' (st_memo st) -> hist_wf all ops2 ->
   trace_ok all ops2 (run_ops cfg_fixed (mkS (st_contigs st) (st_sorted st) m') ops2).
 Proof.
-  intros st all m' Hinv Hwf Hincl Hh. apply history_gen; [apply evict_ok; assumption | exact Hwf | exact Hh].
+  rewrite cfg_fixed_shape. intros st all m' Hinv Hwf Hincl Hh. apply history_gen; [apply evict_ok; assumption | exact Hwf | exact Hh].
 Qed.
 
 (* ------------------------------------------------------------------ refutations: the code as it is at HEAD *)
